@@ -121,6 +121,21 @@ fn project_doc(variant: usize) -> Vec<ABlock> {
     // --- shades / bridges
     d.push(blk("Sombra rect", "BUILDING-SHADE", vec![("TRAN", n(0.0)), ("REFL", n(0.5)), ("X", n(1.0)), ("Y", n(-4.0)), ("Z", n(0.5)), ("HEIGHT", n(3.0)), ("WIDTH", n(6.0)), ("AZIMUTH", n(180.0)), ("TILT", n(90.0))]));
     d.push(blk("Sombra vert", "BUILDING-SHADE", vec![("TRAN", n(0.25)), ("REFL", n(0.75)), ("V1", AVal::Point(vec![2.0, -1.0, 2.0])), ("V2", AVal::Point(vec![2.0, 0.0, 2.0])), ("V3", AVal::Point(vec![5.5, 0.0, 2.5])), ("V4", AVal::Point(vec![5.5, -1.0, 2.5]))]));
+    // more than nine numbered vertices (V10.. sort before V2 as strings)
+    {
+        let ring: Vec<(f32, f32)> = (0..12).map(|i| (i as f32 + 1.0, if i % 2 == 0 { 0.0 } else { 0.5 })).collect();
+        let mut a: Vec<(String, AVal)> = vec![("TRAN".into(), n(0.0)), ("REFL".into(), n(0.5))];
+        for (i, p) in ring.iter().enumerate() {
+            a.push((format!("V{}", i + 1), AVal::Point(vec![p.0, p.1, 2.0 + i as f32 * 0.25])));
+        }
+        d.push(ABlock { name: "Sombra 12 vertices".into(), btype: "BUILDING-SHADE".into(), attrs: a });
+        let mut b: Vec<(String, AVal)> = vec![];
+        for (i, p) in ring.iter().enumerate() {
+            b.push((format!("V{}", i + 1), AVal::Point(vec![p.0, p.1 + i as f32])));
+        }
+        d.push(ABlock { name: "Pol 12 vertices".into(), btype: "POLYGON".into(), attrs: b });
+        d.push(blk("P01_E01_CUB12", "ROOF", vec![("CONSTRUCTION", s("Muro tipo")), ("X", n(0.0)), ("Y", n(0.0)), ("Z", n(2.75)), ("AZIMUTH", n(0.0)), ("TILT", n(0.0)), ("POLYGON", s("Pol 12 vertices"))]));
+    }
     let mut tb = vec![("LONG-TOTAL", n(12.5)), ("TTL", n(0.75)), ("FRSI", n(0.5))];
     if full {
         tb.push(("TYPE", w("PILLAR")));
@@ -372,6 +387,14 @@ fn check_typed(ctx: &Ctx, variant: usize, d: &Data, case: &dyn Fn() -> serde_jso
     match d.shadings.iter().find(|s| s.name == "Sombra vert") {
         Some(sh) if sh.vertices.as_ref().map(|v| (v.len(), v[2].x, v[2].z, v[3].y)) == Some((4, 5.5, 2.5, -1.0)) => {}
         other => bad("BUILDING-SHADE:vertices", format!("{:?}", other)),
+    }
+    match d.shadings.iter().find(|s| s.name == "Sombra 12 vertices") {
+        Some(sh) if sh.vertices.as_ref().map_or(false, |v| v.len() == 12 && (0..12).all(|i| v[i].x == i as f32 + 1.0 && v[i].z == 2.0 + i as f32 * 0.25)) => {}
+        other => bad("BUILDING-SHADE:12-vertices", format!("{:?}", other)),
+    }
+    match d.walls.iter().find(|w| w.name == "P01_E01_CUB12").and_then(|w| w.polygon.as_ref()) {
+        Some(p) if p.0.len() == 12 && (0..12).all(|i| p.0[i].x == i as f32 + 1.0 && p.0[i].y == (if i % 2 == 0 { 0.0 } else { 0.5 }) + i as f32) => {}
+        other => bad("POLYGON:12-vertices", format!("{:?}", other)),
     }
     match d.thermal_bridges.first() {
         Some(t) if t.name == "PILAR" && t.length == Some(12.5) && t.psi == 0.75 && t.frsi == 0.5 => {}
